@@ -753,14 +753,34 @@ def part_from_matchfile(
     # add_clefs(part)
 
     prev_measure = None
+    prev_measure_name = None
     for measure_counter, measure_name in enumerate(bar_times.keys()):
         barline_in_quarters = bar_times[measure_name]
         barline_in_divs = int(round(divs * (barline_in_quarters - offset)))
         if barline_in_divs < 0:
             barline_in_divs = 0
         if prev_measure is not None:
-            part.add(prev_measure, None, barline_in_divs)
+            prev_measure_end = barline_in_divs
+            n_missing = measure_name - prev_measure_name - 1
+            if n_missing > 0:
+                # there are measures without notes between the previous measure
+                # and this one: leave room for them (full measures in the time
+                # signature of the previous measure), they are added by
+                # `add_measures` below
+                prev_barline_in_quarters = bar_times[prev_measure_name]
+                measure_length = int(
+                    round(
+                        divs
+                        * beats_map(prev_barline_in_quarters)
+                        * 4
+                        / beat_type_map(prev_barline_in_quarters)
+                    )
+                )
+                if barline_in_divs - n_missing * measure_length > prev_measure.start.t:
+                    prev_measure_end = barline_in_divs - n_missing * measure_length
+            part.add(prev_measure, None, prev_measure_end)
         prev_measure = score.Measure(number=measure_counter + 1, name=str(measure_name))
+        prev_measure_name = measure_name
         part.add(prev_measure, barline_in_divs)
     last_closing_barline = barline_in_divs + int(
         round(
